@@ -23,6 +23,14 @@ TEXT = {
              "plus witness theorems of the three repaired defects. Tie: regenerated facts (error propagation, regex wrapping, loop shape, "
              "position before dispatch) + differential runs of ParseFirewallRules and handleMessageData with literal and regex rules.",
         note=BASE_NOTE + "Go regexp trusted for full syntax; the correspondence uses a regex subset rendered from ASTs."),
+    "C06": dict(
+        text="Theorems replay_is_noop, stale_is_noop, no_self_accept / self_origin_never_accepted, relay_excludes_receiver, "
+             "info_monotone, relay_at_most_once (induction over arbitrary histories), flood_terminates_bound over the executable "
+             "model of handleRoutingUpdate (path by path, incl. suspected-duplicate notices, nil-vs-empty maps). Tie: regenerated "
+             "facts (stale tests and operators, dedup position and lock span, relay call, self filter) + differential runs of random "
+             "update histories (restarts, replays, old-epoch stragglers, notices, removals, originations) on a real Netceptor.",
+        note=BASE_NOTE + "Seen-table expiry and the concurrency of per-connection goroutines are modelled as sequential steps under the "
+             "lock facts; notices bypass the epoch test by design (at-most-once per UpdateID only): partial."),
     "C10": dict(
         text="Theorems forward_bound (at most h relays for every table assignment incl. loops), reach_iff, expiry_reporter, "
              "traceroute_path, notice_terminates over the executable model of handleMessageData/forwardMessage; tie: regenerated facts "
